@@ -351,6 +351,28 @@ def run(ctx):
     with ctx.rule("C12.BASENAME", "a path gets no basename only when it is empty or its final component was examined; the basename is the whole tail", floor=3,
                   kind="GUARD") as r:
         basename_rule(ctx, r)
+    with ctx.rule("C12.PARSE", "a `}` without an open `{` is rejected (documented error), never turned into an empty alternation", floor=1,
+                  kind="GUARD") as r:
+        # An empty Alternates([]) translates to `(?:)`: it matches the empty string, so `*}` would match every path and
+        # `foo}` the name `foo`. ErrorKind::UnopenedAlternates is documented for exactly this input.
+        pa = facts.fn(G + "::glob::Parser::pop_alternate")
+        ebp = ExprBuilder(pa)
+        lens = cond_switches(pa, lambda e: e.k == "bin" and e[1] in ("Lt", "Le", "Ge", "Gt", "Eq", "Ne") and
+                             any(is_call(x, "alloc::vec::Vec::len") or x.k == "len" for x in walk(e)) and
+                             any(x.k == "field" and x[3] == "stack" for x in walk(e)), ebp)
+        push = pa.calls_to(G + "::glob::Parser::push_token")
+        errs = [bb for bb, j, st in pa.stmts() if st["k"] == "assign" and st["place"]["l"] == 0 and not st["place"]["p"] and
+                st["rv"]["k"] == "agg" and st["rv"].get("variant") == "Err"]
+        direct = [bb for bb in errs if push and not any(C.dominates(pa, c.bb, bb) for c in push)]
+        hdrs_ = {h for _, h in C.back_edges(pa)}
+        guards = [sw_ for sw_ in lens if sw_[0] not in hdrs_ and
+                  not any(sw_[0] in C.reach(pa, [h]) and h in C.reach(pa, [sw_[0]]) for h in hdrs_)]
+        if direct and guards:
+            r.ok("unopened", "pop_alternate: fewer than two open token lists ⇒ Err(UnopenedAlternates)", fn=pa)
+        else:
+            r.bad("unopened", "Parser::pop_alternate accepts a `}` although no alternation is open: it pushes Alternates([]), an "
+                  "empty alternation that matches the empty string (the glob `*}` then matches every path)", fn=pa,
+                  construct="pop_alternate")
     with ctx.rule("C12.MERGE", "indices sorted and de-duplicated after the strategy loop", floor=1, kind="PASS") as r:
         f = facts.fn(GS + "::matches_candidate_into")
         mi = f.calls_to(GSM + "::matches_into")
